@@ -1,10 +1,262 @@
 import LocustModel.Codec.Decode2
 import LocustModel.Codec.Rebuild
 import LocustModel.Store.C07Machine
-namespace LM.C07
-open LM LM.Codec LM.D2
+import LocustModel.Lemmas.C07Decode
+import LocustModel.Lemmas.C07Rebuild
+import LocustModel.Lemmas.C07Builders
+import LocustModel.Lemmas.C07Machine
+import LocustModel.Lemmas.C07Reenc
+import LocustModel.Lemmas.C07Env
+import LocustModel.Lemmas.C07Tiles
+import LocustModel.Lemmas.C07Real
+/-
+  C07 — flush, compaction and eviction never change table content.  Property theorems only.
 
-theorem C07_decodeQ_base {dec : Section → Section} {c : Col} {v : SVal} (h : ImgBase c v) : decodeQ dec c = .ok v := by
-  cases h <;> simp_all [decodeQ, Codec.decode, Col.toQ, Op.toQ, runOps, step, ofSection, natsOf, natsToInts]
+  Models:  `D2.decode2` mirrors the free fn `decode` of src/mem_store/column.rs (= `DataSource::decode`, used only by
+  `InnerLocustDB::compact`);  `D2.decodeQ` is the query path (`Codec::decode_ops`, C01's model) and is the
+  SPECIFICATION of what a column image means;  `Rebuild.pushDecoded / pushAll` mirror the `match decoded.get_type()`
+  re-push of `compact` and the null-map part of `ColumnBuffer`;  `C07M` is one table under maintenance
+  (`ingest`, `freeze`, `batch`, `compact k`, `evict`, `restart`), with `content` = partitions by offset ++ frozen
+  buffer ++ open buffer as the specification of what a query sees.
+
+  All statements are for column images / cell lists / partition lists / histories of ANY size.  lz4 / pco are the
+  parameter `dec` with the round trip `dec (enc s) = s` as an explicit hypothesis (inside `Img`, `builder_img`);
+  that the real builders read back what was pushed is C01's theorem and enters as `BuildOk env`.
+-/
+namespace LM.C07
+open LM LM.Codec LM.D2 LM.Rebuild LM.C07M
+
+/-! ## 1. the second decoder agrees with the query path -/
+
+/-- **`decode2_eq_decode`.**  On EVERY column image a builder can produce — the 21 codec shapes of
+    `IntegerColumn::new_boxed` / `create_col` (u8/u16/u32 × offset × delta × nullable, plain i64), `FloatColumn`,
+    `fast_build_string_column` (dictionary u8/u16/u32, packed, hex-packed; nullable or not), `Column::null`, each
+    plain or with section 0 lz4- / pco-compressed, all lengths, all contents — the free `decode` used by compaction
+    returns exactly what the query path reads: same values, same null map, same type. -/
+theorem C07_decode2_eq_decode (dec : Section → Section) (c : Col) (v : SVal) (h : Img dec c v) :
+    decode2 dec c = decodeQ dec c ∧ decodeQ dec c = .ok v := by
+  rw [decode2_img h, decodeQ_img h]; exact ⟨rfl, rfl⟩
+
+/-- non-vacuity: a nullable u8 column with an offset (`[PushDataSection(1), Nullable, Add(U8, -5)]`, the shape on
+    which compaction used to turn NULL into the offset), lz4-compressed. -/
+example : ∃ v, Img (fun s => if s = .comp [9, 9] 0 then .nat .u8 [8, 0, 12] else s)
+      ⟨3, [.lz4 .u8 3, .push 1, .nullable, .add .u8 (-5)], [.comp [9, 9] 0, .bitvec [5]]⟩ v ∧
+      cellsOf v = [.int 3, .null, .int 7] :=
+  ⟨⟨.i64 [3, -5, 7], some [5]⟩,
+   .lz4 (.intAddN 3 .u8 trivial (-5) [8, 0, 12] [5] [3, -5, 7] rfl) .u8 rfl 3 [9, 9] 0 (by decide),
+   by decide⟩
+
+/-- Every builder image has one of the codec op lists the driver accepts (`builderShape` is evaluated on every real
+    column the harness sees; a column outside the table is reported as a correspondence break). -/
+theorem C07_img_builderShape (dec : Section → Section) (c : Col) (v : SVal) (h : Img dec c v) :
+    builderShape c.ops = true := by
+  cases h with
+  | plain h => cases h <;> simp_all [builderShape, baseShape]
+  | lz4 h t ht n p tag hdec => cases h <;> simp_all [builderShape, baseShape]
+  | pco h t ht n fp p tag hdec => cases h <;> simp_all [builderShape, baseShape]
+
+/-- **Builders ⊆ Img.**  Whatever C01's model of `ColumnBuffer::finalize` (`IntegerColumn::new_boxed`,
+    `FloatColumn::new_boxed`, `fast_build_string_column`, `Column::null`) followed by `lz4_or_pco_encode` leaves
+    behind, for any push history: if the query path reads `v` from it, it is a builder image with value `v` — so
+    `C07_decode2_eq_decode` applies to it.  Library assumptions: compressing a typed section yields a compressed
+    section, the round trip is the identity, `Null` sections are never compressed. -/
+theorem C07_builders_only_img (cv : Conv) (cp : Compressor) (use : Bool) (cb : ColBuf) (q : Column) (v : SVal)
+    (hq : cb.finalize cv = .ok q)
+    (henc : ∀ s, secET s ≠ none → ∃ p tag, cp.enc s = .comp p tag)
+    (hlaw : ∀ s, cp.dec (cp.enc s) = s)
+    (huse : use = true → ∀ s0 rest, q.sections = s0 :: rest → secET s0 ≠ none)
+    (hv : Codec.decode cp.dec (compress cp use q) = .ok v) :
+    ∃ c : Col, c.toQ = compress cp use q ∧ Img cp.dec c v ∧ decode2 cp.dec c = .ok v := by
+  obtain ⟨c, h1, h2⟩ := builder_img cv cp use cb q v hq henc hlaw huse hv
+  exact ⟨c, h1, h2, decode2_img h2⟩
+
+/-- **C01 ⇒ `BuildOk`, pointwise.**  For EVERY sequence of pushes ingestion can issue on one `ColumnBuffer` (any mix of
+    `push_ints` / `push_floats` / `push_strings` / `push_nulls`, any sizes; i64 values, strings < 2^24 bytes, ≥ 1 row),
+    with or without compression of section 0: `finalize` succeeds, the stored image is a builder image, the query path
+    reads C01's specification cells from it, and the free `decode` of compaction returns the very same value.  This is
+    the content of the hypothesis `BuildOk` for the REAL builder models (C01's refinement proof + `builder_img`). -/
+theorem C07_builder_reads_back (cv : Conv) (hcv : ConvOk cv) (cp : Compressor) (hcp : CompOk cp) (use : Bool)
+    (ops : List Codec.Op) (hops : ∀ op ∈ ops, OpOk op) (hrows : specColumn cv ops ≠ [])
+    (huse : use = true → ∃ cell ∈ specColumn cv ops, cell ≠ .null) :
+    ∃ cb q c v, ColBuf.applyAll cv {} ops = .ok cb ∧ cb.finalize cv = .ok q ∧ c.toQ = compress cp use q ∧
+      Img cp.dec c v ∧ cellsOf v = specColumn cv ops ∧ decode2 cp.dec c = .ok v :=
+  builder_reads_back cv hcv cp hcp use ops hops hrows huse
+
+/-- non-vacuity: nullable ints with a NULL gap, compressed (C01's demo conversion / compressor satisfy the hypotheses). -/
+example : ∃ cb q c v, ColBuf.applyAll demoConv {} [.ints [5, 300], .nulls 2, .ints [7]] = .ok cb ∧
+    cb.finalize demoConv = .ok q ∧ c.toQ = compress demoComp true q ∧ Img demoComp.dec c v ∧
+    cellsOf v = [.int 5, .int 300, .null, .null, .int 7] ∧ decode2 demoComp.dec c = .ok v :=
+  C07_builder_reads_back demoConv demoConv_ok demoComp demoComp_ok true [.ints [5, 300], .nulls 2, .ints [7]]
+    (by intro op hop; simp at hop; rcases hop with h | h | h <;> subst h <;> simp [OpOk] <;> decide)
+    (by decide) (fun _ => ⟨.int 5, by decide, by decide⟩)
+
+/-! ## 2. re-pushing the decoded values rebuilds the same cells -/
+
+/-- **`rebuild_cells`.**  Pushing the decoded values of a single-typed column (any number of partitions, each dense,
+    nullable, or all-NULL / absent, any lengths, any null maps) into a fresh `ColumnBuffer` the way `compact` does
+    never panics and yields a buffer whose rows read as the concatenation of the values' cells — NULLs preserved. -/
+theorem C07_rebuild_cells (k : Kind) (hk1 : k ≠ .empty) (hk2 : k ≠ .other) (vs : List SVal) (hh : homog k vs = true) :
+    ∃ b, pushAll {} vs = .ok b ∧ b.length = (vs.map fun v => (cellsOf v).length).sum ∧
+      b.cells = vs.flatMap cellsOf := by
+  obtain ⟨b, h1, _, h3, h4⟩ := pushAll_spec k hk1 hk2 vs {} wf_default (Or.inl rfl) hh
+  exact ⟨b, h1, by simpa using h3, by simpa [Buf.cells] using h4⟩
+
+/-- non-vacuity: dense ints, then a nullable value (no bitmap exists yet — the case in which `push_present` used to
+    drop the null map), then an absent column, then another nullable value. -/
+example : ∃ b, pushAll {} [⟨.i64 [1, 2], none⟩, ⟨.i64 [0, 4, 0], some [2]⟩, ⟨.null 2, none⟩, ⟨.i64 [7], some [1]⟩] = .ok b ∧
+    b.cells = [.int 1, .int 2, .null, .int 4, .null, .null, .null, .int 7] := by
+  obtain ⟨b, h1, _, h3⟩ := C07_rebuild_cells .int (by decide) (by decide)
+    [⟨.i64 [1, 2], none⟩, ⟨.i64 [0, 4, 0], some [2]⟩, ⟨.null 2, none⟩, ⟨.i64 [7], some [1]⟩] (by decide)
+  exact ⟨b, h1, by rw [h3]; decide⟩
+
+/-- **`rebuild_id`.**  The whole column rebuild of `InnerLocustDB::compact` — stored image (or `Column::null` for a
+    partition without the column) → free `decode` → `push_*` by decoded type → `assert_eq!(range.len(), builder.len())`
+    → `finalize` → what a query reads from the new image — is the identity on cell lists: the concatenation of the
+    partitions' cells with NULLs for partitions that lack the column.  For every column kind incl. all-NULL and absent
+    columns, any number of merged partitions, any lengths. -/
+theorem C07_rebuild_id (env : Env) (hb : BuildOk env) (xs : ReencIn) (hlen : LenOk xs) (hty : XsTyped xs) :
+    reencOf env xs = .ok (xs.flatMap fun x => orNulls x.1 x.2) :=
+  reencOf_reId env hb xs hlen hty
+
+/-- non-vacuity (`BuildOk` is satisfiable, `demoEnv_ok`): three partitions — nullable ints, the column absent,
+    an all-NULL stretch followed by a value. -/
+example : reencOf demoEnv [(3, some [.int 5, .null, .int 7]), (2, none), (3, some [.null, .null, .int (-1)])] =
+    .ok [.int 5, .null, .int 7, .null, .null, .null, .null, .int (-1)] := by
+  have := C07_rebuild_id demoEnv demoEnv_ok
+    [(3, some [.int 5, .null, .int 7]), (2, none), (3, some [.null, .null, .int (-1)])]
+    (lenOk_of_B (by decide)) (xsTyped_of_B (k := .int) (Or.inl rfl) (by decide))
+  simpa [orNulls] using this
+
+/-! ## 3. every maintenance step preserves the content of every column -/
+
+/-- **freeze + batch** (`Table::freeze_buffer`, `Table::batch`): the buffered rows become the next partition (or
+    nothing happens when the buffer is empty); every column reads the same, columns the buffer lacks read NULL. -/
+theorem C07_freeze_batch_preserves_content (ty : Name → Kind) (t : Table) (hwf : TWF t) (hty : TTyped ty t) :
+    ∃ t1, freeze t = .ok t1 ∧ ∀ n, content (batch t1) n = content t n := by
+  obtain ⟨t1, h1, _, _, h3, _⟩ := freeze_batch_content ty t hwf hty
+  exact ⟨t1, h1, h3⟩
+
+/-- **compaction** (`InnerLocustDB::compact` + `Table::compact`) with the REAL column rebuild, for ANY number `k` of
+    trailing partitions the planner may select (`plan_compaction` returns a contiguous suffix in offset order; its
+    size-based choice is an input): never panics, every column — also one that some or all merged partitions lack —
+    reads the same before and after, `next_partition_offset` and the open buffer are untouched. -/
+theorem C07_compact_preserves_content (env : Env) (hb : BuildOk env) (ty : Name → Kind) (t : Table) (hwf : TWF t)
+    (hty : TTyped ty t) (k : Nat) :
+    ∃ t', compact (reencOf env) t k = .ok t' ∧ (∀ n, content t' n = content t n) ∧ t'.nextOff = t.nextOff ∧
+      t'.buffer = t.buffer := by
+  obtain ⟨t', h1, _, _, h3, h4, h5⟩ := compact_content (reencOf env) (reencOf_reId env hb) ty t hwf hty k
+  exact ⟨t', h1, h3, h4, h5⟩
+
+/-- **eviction** (`evict_cache` / `enforce_mem_limit` → `Partition::evict`): residency only. -/
+theorem C07_evict_preserves_content (t : Table) (n : Name) : content (evict t) n = content t n :=
+  evict_content t n
+
+/-- **restart / reload**: partitions come back non-resident, unflushed rows are replayed into the open buffer. -/
+theorem C07_restart_preserves_content (t : Table) (hwf : TWF t) (n : Name) : content (restart t) n = content t n :=
+  restart_content t hwf n
+
+/-- **`step_preserves_content`.**  Every step of {ingest, flush (freeze, batch, compact any suffix), evict, restart}
+    on a well-formed single-typed table succeeds, keeps the table well-formed and single-typed, and changes the
+    content of every column by exactly the rows the step ingested (nothing for the maintenance steps). -/
+theorem C07_step_preserves_content (env : Env) (hb : BuildOk env) (ty : Name → Kind) (t : Table) (hwf : TWF t)
+    (hty : TTyped ty t) (s : Step) (hs : StepOk ty s) :
+    ∃ t', step (reencOf env) t s = .ok t' ∧ TWF t' ∧ TTyped ty t' ∧
+      ∀ n, content t' n = content t n ++ batchesCol (ingested [s]) n :=
+  step_content (reencOf env) (reencOf_reId env hb) ty t hwf hty s hs
+
+/-- maintenance steps proper: the content is literally unchanged -/
+theorem C07_maintenance_preserves_content (env : Env) (hb : BuildOk env) (ty : Name → Kind) (t : Table) (hwf : TWF t)
+    (hty : TTyped ty t) (s : Step) (hs : ∀ b, s ≠ .ingest b) :
+    ∃ t', step (reencOf env) t s = .ok t' ∧ ∀ n, content t' n = content t n := by
+  have hok : StepOk ty s := by cases s <;> first | exact absurd rfl (hs _) | trivial
+  obtain ⟨t', h1, _, _, h4⟩ := C07_step_preserves_content env hb ty t hwf hty s hok
+  refine ⟨t', h1, fun n => ?_⟩
+  rw [h4]
+  cases s <;> first | exact absurd rfl (hs _) | simp [ingested, batchesCol]
+
+/-! ## 4. histories -/
+
+/-- **`C07_history`.**  For every history over {ingest(batch), flush with any compaction the planner may choose, evict,
+    restart}, of any length, over any single-typed table contents (columns present in some batches and absent or
+    all-NULL in others): starting from any well-formed table the REAL machine (free `decode` + re-push + builders)
+    never panics and the content of every column afterwards = content before ++ the ingested rows, in order. -/
+theorem C07_history (env : Env) (hb : BuildOk env) (ty : Name → Kind) (steps : List Step) (t : Table) (hwf : TWF t)
+    (hty : TTyped ty t) (hs : ∀ s ∈ steps, StepOk ty s) :
+    ∃ t', run (reencOf env) t steps = .ok t' ∧ ∀ n, content t' n = content t n ++ batchesCol (ingested steps) n := by
+  obtain ⟨t', h1, _, _, h4⟩ := run_content (reencOf env) (reencOf_reId env hb) ty steps t hwf hty hs
+  exact ⟨t', h1, h4⟩
+
+/-- from the empty table: the content is exactly the ingested rows -/
+theorem C07_history_from_empty (env : Env) (hb : BuildOk env) (ty : Name → Kind) (hk : ∀ n, TypedK (ty n))
+    (steps : List Step) (hs : ∀ s ∈ steps, StepOk ty s) :
+    ∃ t', run (reencOf env) {} steps = .ok t' ∧ ∀ n, content t' n = batchesCol (ingested steps) n := by
+  obtain ⟨t', h1, h2⟩ := C07_history env hb ty steps {} twf_empty ⟨hk, by simp, by simp⟩ hs
+  exact ⟨t', h1, fun n => by rw [h2]; simp [content, batchesCol]⟩
+
+/-- non-vacuity: two batches (the second lacks column `a`, has a late column `b`), flush merging both partitions,
+    evict, restart, another batch, flush compacting one partition. -/
+example : ∃ t', run (reencOf demoEnv) {}
+      [.ingest ⟨2, [("a", [.int 1, .null])]⟩, .flush 0, .ingest ⟨1, [("b", [.int 9])]⟩, .flush 2, .evict, .restart,
+       .ingest ⟨1, [("a", [.null]), ("b", [.int 3])]⟩, .flush 1] = .ok t' ∧
+      content t' "a" = [.int 1, .null, .null, .null] ∧ content t' "b" = [.null, .null, .int 9, .int 3] := by
+  obtain ⟨t', h1, h2⟩ := C07_history_from_empty demoEnv demoEnv_ok (fun _ => .int) (fun _ => Or.inl rfl)
+    [.ingest ⟨2, [("a", [.int 1, .null])]⟩, .flush 0, .ingest ⟨1, [("b", [.int 9])]⟩, .flush 2, .evict, .restart,
+     .ingest ⟨1, [("a", [.null]), ("b", [.int 3])]⟩, .flush 1]
+    (stepsOk_of_B (by decide))
+  exact ⟨t', h1, by rw [h2]; decide, by rw [h2]; decide⟩
+
+/-- **`C07_history` with C01's builders plugged in — no builder hypothesis left.**  `realEnv cv cp use` stores, for
+    every cell list of C01's domain, the image C01's model of the real builders produces (`C07_real_builder_is_c01`);
+    its `BuildOk` is a theorem (`realEnv_ok`, from C01's refinement proof, `builder_img` and the shape analysis), for ANY
+    float/integer formatting functions and ANY compressor.  Hence for every history over {ingest, flush k, evict,
+    restart} on single-typed columns the machine with the real second decoder, the real re-push and C01's builders
+    never panics and shows exactly the ingested rows. -/
+theorem C07_history_c01 (cv : Conv) (cp : Compressor) (use : Bool) (ty : Name → Kind) (hk : ∀ n, TypedK (ty n))
+    (steps : List Step) (hs : ∀ s ∈ steps, StepOk ty s) :
+    ∃ t', run (reencOf (realEnv cv cp use)) {} steps = .ok t' ∧ ∀ n, content t' n = batchesCol (ingested steps) n :=
+  C07_history_from_empty (realEnv cv cp use) (realEnv_ok cv cp use) ty hk steps hs
+
+/-- what `realEnv` stores: on C01's domain (i64 integers, strings shorter than 2^24 bytes, ≥ 1 row; `ConvOk`, `CompOk`)
+    the image of single-typed cells `cs` is `ColBuf.applyAll` → `finalize` → `compress` applied to the pushes for `cs`,
+    it is a builder image and reads back as `cs`. -/
+theorem C07_real_builder_is_c01 (cv : Conv) (hcv : ConvOk cv) (cp : Compressor) (hcp : CompOk cp) (use : Bool)
+    (k : Kind) (hk : TypedK k) (cs : List Cell) (hu : Uniform k cs) (hne : cs ≠ []) (hok : ∀ c ∈ cs, CellOk c) :
+    ∃ v cb q, ColBuf.applyAll cv {} (opsOf cs) = .ok cb ∧ cb.finalize cv = .ok q ∧
+      (realBuild cv cp use cs).toQ = compress cp (use && hasValue cs) q ∧ Img cp.dec (realBuild cv cp use cs) v ∧
+      cellsOf v = cs := by
+  obtain ⟨v, cb, q, h1, h2, h3, h4, h5, _⟩ := realBuild_is_c01 cv hcv cp hcp use k hk cs hu hne hok
+  exact ⟨v, cb, q, h1, h2, h3, h4, h5⟩
+
+/-- non-vacuity: C01's demo formatting / compressor, compression on; a nullable column, a late column, compaction of
+    2 and of 1 partitions, eviction, restart. -/
+example : ∃ t', run (reencOf (realEnv demoConv demoComp true)) {}
+      [.ingest ⟨2, [("a", [.int 1, .null])]⟩, .flush 0, .ingest ⟨1, [("b", [.int 9])]⟩, .flush 2, .evict, .restart,
+       .ingest ⟨1, [("a", [.null]), ("b", [.int 3])]⟩, .flush 1] = .ok t' ∧
+      content t' "a" = [.int 1, .null, .null, .null] ∧ content t' "b" = [.null, .null, .int 9, .int 3] := by
+  obtain ⟨t', h1, h2⟩ := C07_history_c01 demoConv demoComp true (fun _ => .int) (fun _ => Or.inl rfl)
+    [.ingest ⟨2, [("a", [.int 1, .null])]⟩, .flush 0, .ingest ⟨1, [("b", [.int 9])]⟩, .flush 2, .evict, .restart,
+     .ingest ⟨1, [("a", [.null]), ("b", [.int 3])]⟩, .flush 1]
+    (stepsOk_of_B (by decide))
+  exact ⟨t', h1, by rw [h2]; decide, by rw [h2]; decide⟩
+
+example : ∃ v cb q, ColBuf.applyAll demoConv {} (opsOf [.int 5, .null, .int 300]) = .ok cb ∧ cb.finalize demoConv = .ok q ∧
+    (realBuild demoConv demoComp true [.int 5, .null, .int 300]).toQ = compress demoComp (true && hasValue [.int 5, .null, .int 300]) q ∧
+    Img demoComp.dec (realBuild demoConv demoComp true [.int 5, .null, .int 300]) v ∧ cellsOf v = [.int 5, .null, .int 300] :=
+  C07_real_builder_is_c01 demoConv demoConv_ok demoComp demoComp_ok true .int (Or.inl rfl) _
+    (uniform_of_B (by decide)) (by decide)
+    (by intro c hc; simp at hc; rcases hc with h | h | h <;> subst h <;> simp [CellOk] <;> decide)
+
+/-- **partition ranges tile `[0, next_partition_offset)`** after every history: `batch` appends at
+    `next_partition_offset`, `compact` of ANY suffix puts the merged partition at the offset of the first merged one with
+    the summed length, eviction / restart do not move anything.  Holds for every re-encoding (also a faulty one). -/
+theorem C07_partitions_tile (re : Reenc) (steps : List Step) (t t' : Table) (h : Tiled t)
+    (hr : run re t steps = .ok t') : Tiled t' ∧ t'.nextOff = (t'.parts.map (·.len)).sum := by
+  have ht := tiled_run re steps t t' h hr
+  exact ⟨ht, by simpa using tiles_end _ _ _ ht⟩
+
+/-- non-vacuity: after ingest 3, flush, ingest 2, flush merging both, ingest 4, flush (no compaction) the partitions are
+    [0,5) and [5,9). -/
+example : ∃ t', run idReenc {} [.ingest ⟨3, []⟩, .flush 0, .ingest ⟨2, []⟩, .flush 2, .ingest ⟨4, []⟩, .flush 0] = .ok t' ∧
+    t'.parts.map (fun p => (p.offset, p.len)) = [(0, 5), (5, 4)] ∧ t'.nextOff = 9 := ⟨_, rfl, by decide, by decide⟩
 
 end LM.C07
